@@ -1341,6 +1341,10 @@ func (e *Entry) FixChoice() {
 					Prefix: ce.Prefix,
 					Dir:    map[string]*Entry{ce.Name: ce},
 					Extra:  map[string][]interface{}{},
+					// The case belongs to the module that wrote
+					// the node it stands for (an augment's, if
+					// the node was augmented in).
+					namespace: ce.namespace,
 				}
 				ce.Parent = ne
 				e.Dir[k] = ne
